@@ -408,6 +408,41 @@ func Check(sp *Spec) string {
 			}
 		}
 	}
+	// Gap-freedom per publisher, with no registration witness needed: a subscriber that received the k-th message
+	// of a publisher live was registered when that message was fanned out; the same publisher's later Publish
+	// calls started after that one had returned, so Joe serialised them later, and unless the subscriber failed,
+	// was cancelled or a Shutdown was requested in between, each of them that returned nil is owed to it.
+	for _, st := range order {
+		s := st.s
+		if s.W.FirstErr != nil || st.failedAt >= 0 || (st.regKnown && !st.registered) {
+			continue
+		}
+		gotLive := map[string]bool{}
+		for _, t := range st.live {
+			if st.complete[base(t)] {
+				gotLive[base(t)] = true
+			}
+		}
+		first := map[int]*Msg{} // per publisher: the earliest of its messages this subscriber received live
+		for _, m := range sp.Msgs {
+			if gotLive[m.Tag] && (first[m.Pub] == nil || m.Seq < first[m.Pub].Seq) {
+				first[m.Pub] = m
+			}
+		}
+		for _, m := range sp.Msgs {
+			f := first[m.Pub]
+			if f == nil || m.Seq <= f.Seq || !m.Returned || m.Err != nil || !intersect(m.Topics, s.Topics) || gotLive[m.Tag] {
+				continue
+			}
+			if s.Cancel && !s.DoneBefore[m.Tag] {
+				continue
+			}
+			if sp.ConcurrentShutdown && !sp.DoneBeforeShutdown[m.Tag] {
+				continue
+			}
+			return fmt.Sprintf("%s (topics %v) received %s but never %s, which the same publisher published afterwards to %v and Publish accepted (nil)%s", s.W.Name, s.Topics, f.Tag, m.Tag, m.Topics, cancelNote(s))
+		}
+	}
 	return ""
 }
 
